@@ -42,14 +42,16 @@ Theorem C20_uuid_spec : forall u : str,
 Proof. exact uuid_spec. Qed.
 Print Assumptions C20_uuid_spec.
 
-(* the format lexer always consumes at least one character and never more than there
+(* the format lexer (over runes; an identifier character is one of the ASCII ranges
+   a-z A-Z 0-9 _ - and nothing else) always consumes at least one character and never more than there
    is; a header item is long enough for its "$header." prefix to be cut off *)
 Theorem C20_format_lexer_progress : forall s : str, s <> [] ->
   (1 <= snd (lex s) <= length s)%nat /\ (fst (lex s) = THeader -> (9 <= snd (lex s))%nat).
 Proof. exact lex_progress. Qed.
 Print Assumptions C20_format_lexer_progress.
 
-(* logger.New terminates and never panics on any format string; the only failures are
+(* logger.New terminates and never panics on ANY byte string as format (the model decodes it to
+   runes as parse does: non-ASCII text, ill-formed UTF-8 included); the only failures are
    "invalid field" (1) and "empty log format" (2) *)
 Theorem C20_new_logger_total : forall format : str,
   (exists p, new_logger format = Ok p /\ p <> []) \/ new_logger format = Err 1 \/ new_logger format = Err 2.
@@ -316,9 +318,45 @@ Theorem C20_log_line_is_concat_of_fields : forall format e p,
 Proof. exact log_line_is_concat_of_fields. Qed.
 Print Assumptions C20_log_line_is_concat_of_fields.
 
-(* ... and those pieces spell the format: the source texts of the pattern's items (literal
-   text, "$header." ++ name, the field's documented name) concatenate to the format string *)
+(* ... and those pieces spell the format, for EVERY byte string (ASCII, UTF-8 text directly
+   adjacent to fields, ill-formed bytes): the source texts of the pattern's items (literal text,
+   "$header." ++ name, the field's documented name) concatenate to the format as Go sees it
+   after s := []rune(format) and string(s[:n]) ... *)
 Theorem C20_new_logger_sound : forall format p,
-  new_logger format = Ok p -> concat (map item_src p) = format.
+  new_logger format = Ok p -> concat (map item_src p) = go_string_of_runes format.
 Proof. exact new_logger_sound. Qed.
 Print Assumptions C20_new_logger_sound.
+
+(* ... which is the format string itself whenever it is well-formed UTF-8, i.e. the encoding
+   of a sequence of Unicode scalar values (letters, digits, CJK, combining marks, emoji):
+   []rune(string(runes)) = runes *)
+Theorem C20_utf8_roundtrip : forall rs, Forall scalar rs -> utf8_decode (utf8_encode rs) = rs.
+Proof. exact utf8_roundtrip. Qed.
+Print Assumptions C20_utf8_roundtrip.
+
+Theorem C20_new_logger_sound_utf8 : forall rs p,
+  Forall scalar rs -> new_logger (utf8_encode rs) = Ok p ->
+  concat (map item_src p) = utf8_encode rs.
+Proof. exact new_logger_sound_utf8. Qed.
+Print Assumptions C20_new_logger_sound_utf8.
+
+Theorem C20_utf8_examples :
+  utf8_decode (utf8_encode [36; 29366; 24577; 58; 128512; 769; 1635]) = [36; 29366; 24577; 58; 128512; 769; 1635] /\
+  utf8_decode [255; 237; 160; 128; 192; 175] = [65533; 65533; 65533; 65533; 65533; 65533] /\
+  utf8_encode [65533] = [239; 191; 189].
+Proof. exact utf8_examples. Qed.
+Print Assumptions C20_utf8_examples.
+
+(* ================= what ServeHTTP puts into the event (proxy.responseWriter) =================
+   informational responses (103 Early Hints, 102 Processing), then the final status, then the
+   body: the status in the event is the FINAL one, the size the sum of the body writes *)
+Theorem C20_rw_code_is_final : forall infos final ws,
+  (forall c, In c ws -> exists n, c = RwWrite n) ->
+  rw_run (map RwHeader infos ++ RwHeader final :: ws) = (final, fold_left sum_writes ws 0%Z).
+Proof. exact rw_code_is_final. Qed.
+Print Assumptions C20_rw_code_is_final.
+
+Theorem C20_rw_example :
+  rw_run [RwHeader 103; RwHeader 102; RwHeader 201; RwWrite 100; RwWrite 51] = (201, 151)%Z.
+Proof. exact rw_example. Qed.
+Print Assumptions C20_rw_example.
